@@ -11,11 +11,7 @@ import (
 // real component.ComponentHub under the name of a service (mempool, rpc, ...) and records every message that the
 // code under test sends to that service with RequestTo / TellTo. Nothing is delivered, no actor is started.
 
-type HubMsg struct {
-	To   string
-	Kind string // "request" | "tell"
-	Msg  interface{}
-}
+// HubMsg is declared in hub.go (Kind: "request" | "tell" here).
 
 type HubLog struct {
 	Msgs []HubMsg
